@@ -311,7 +311,68 @@ pub fn run_pattern(hsecs: u16, extra: (u16, u16), p: Pattern, res: &mut CaseResu
     }
 }
 
+/// The client closes the connection and the broker never answers, nor says anything else
+/// (it has gone away without the socket showing it): with heartbeats negotiated the silence
+/// is fatal during the close as at any other time - `Connection::close` comes back with
+/// MissedServerHeartbeats about 2h after the broker's last byte, it does not wait for ever.
+fn silent_during_close(hsecs: u16, res: &mut CaseResult) {
+    let hd = Duration::from_secs(hsecs as u64);
+    let mut reflex = Reflex::default();
+    reflex.tune = (2047, 131072, hsecs);
+    reflex.ignore_conn_close = true;
+    let (conn, h) = session::open_with(reflex, session::default_opts().heartbeat(hsecs), ConnectionTuning::default(), |_| {});
+    let conn = match conn {
+        Ok(c) => c,
+        Err(e) => {
+            res.inconclusive(format!("handshake: {}", ek(&e)));
+            return;
+        }
+    };
+    // a lively broker for a while, then the close, then nothing
+    std::thread::sleep(hd / 2);
+    h.inject(hb_frame());
+    std::thread::sleep(hd / 4);
+    let t = run::spawn("close", move || conn.close());
+    let limit = hd * 2 + LATE_TOL + Duration::from_secs(6);
+    match t.join(limit) {
+        J::Done(Err(e)) if ek(&e) == "MissedServerHeartbeats" => {
+            let (last_in, rel) = h.peek(|st| (st.last_read_data_at, st.released_at));
+            if let (Some(li), Some(at)) = (last_in, rel) {
+                let silence = at.duration_since(li);
+                res.obs("silence_before_death_while_closing_ms", silence.as_millis() as u64);
+                if silence + EARLY_TOL < hd * 2 {
+                    res.violate("declared_dead_too_early", format!("h={} closing: MissedServerHeartbeats after only {:?} of silence", hsecs, silence));
+                } else if silence > hd * 2 + Duration::from_secs(3) {
+                    res.inconclusive(format!("declared dead {:?} after the last inbound byte (machine overloaded?)", silence));
+                } else if silence > hd * 2 + LATE_TOL {
+                    res.violate("declared_dead_too_late", format!("h={} closing: {:?} of silence before the close failed", hsecs, silence));
+                }
+            }
+        }
+        J::Done(other) => res.violate("wrong_error", format!("h={}: the broker never answered the Close and stayed silent; Connection::close() = {}", hsecs, session::rk(&other))),
+        _ => res.violate("silence_not_fatal", format!("h={}: Connection::close() had not returned {:?} after the broker's last byte (unanswered Close, silent broker)", hsecs, limit)),
+    }
+    let sp = wire::parse_client_stream(&h.out_bytes());
+    if sp.error.is_some() {
+        res.violate("malformed_outbound_frame", format!("{:?}", sp.error));
+    }
+    for p in run::io_panics(&run::take_panics()) {
+        res.violate("io_thread_panic", format!("{} at {}", p.msg, p.loc));
+    }
+}
+
 pub fn run(rc: &mut RunCtx) {
+    for (i, hh) in [1u16, 2, 1, 2].iter().enumerate().take(rc.n(2, 4) as usize) {
+        let id = format!("silent-during-close:h{}:{}", hh, i);
+        if !rc.mine(&id) {
+            continue;
+        }
+        rc.begin_with_timeout(&id, Duration::from_secs(90));
+        let mut res = CaseResult::new(id);
+        silent_during_close(*hh, &mut res);
+        res.sample = Some(json!({"negotiated_heartbeat": hh, "pattern": "client closes, the broker never answers and stays silent"}));
+        rc.end(res);
+    }
     let hs: &[u16] = if rc.quick() { &[1] } else { &[1, 2, 3] };
     let mut cases: Vec<(u16, Pattern)> = Vec::new();
     for &hh in hs {
